@@ -79,6 +79,10 @@ def planted():
                 yield f"start: {pre}{c.format(a='foo')}\n{base_rules}", ("underscore_var", "_y", "whole-body named " + c)
                 yield f"start: {pre}{c.format(a='foo')} NEWLINE\n{base_rules}", ("underscore_var", "_y", "named " + c)
                 yield f"start: NAME | (NAME {pre}{c.format(a='foo')})\n{base_rules}", ("underscore_var", "_y", "nested named " + c)
+    # every token kind the call maker knows by name must be usable (accepted AND resolvable at parse time)
+    for tok in ("NAME", "NUMBER", "STRING", "OP", "TYPE_COMMENT", "SOFT_KEYWORD", "FSTRING_START", "FSTRING_MIDDLE",
+                "FSTRING_END", "NEWLINE", "INDENT", "DEDENT", "ENDMARKER", "ASYNC", "AWAIT"):
+        yield f"start: [{tok}] NAME NEWLINE | NUMBER ({tok} | NUMBER)\n", ("well-formed", None, "token " + tok)
     yield "start: NAME\n_r: NAME\n", ("underscore_rule", "_r", "rule")
     yield "begin: NAME\n", ("no_start", None, "grammar")
     yield "@trailer 'pass'\nbegin: NAME\n", ("well-formed", None, "trailer")
